@@ -529,12 +529,23 @@ Proof.
   unfold pwhash_params_ok. repeat split; lia.
 Qed.
 
-(* PwHash::verify: Ok exactly when re-hashing the offered password gives the stored bytes *)
+(* PwHash::verify: Ok exactly when the record's declared length is the length of the hash it stores and re-hashing the offered
+   password to that length gives the stored bytes; a record that declares another length is refused before anything is sized
+   from the number it declares *)
 Theorem verify_iff stored salt hl ops mem alg pwd :
-  verify stored salt hl ops mem alg pwd = Ok tt <-> hash_with_salt pwd salt hl ops mem alg = Ok stored.
+  verify stored salt hl ops mem alg pwd = Ok tt <->
+  (Z.of_nat (length stored) = hl /\ hash_with_salt pwd salt (length stored) ops mem alg = Ok stored).
 Proof.
-  unfold verify. destruct (hash_with_salt pwd salt hl ops mem alg) as [c| |]; cbn [obind]; [|split; discriminate|split; discriminate].
-  destruct (bytes_eqb stored c) eqn:E.
-  - apply bytes_eqb_eq in E. subst. tauto.
-  - split; [discriminate|]. intros H. injection H as ->. rewrite (proj2 (bytes_eqb_eq _ _) eq_refl) in E. discriminate.
+  unfold verify. destruct (Z.of_nat (length stored) =? hl) eqn:El; cbn [negb].
+  - apply Z.eqb_eq in El. rewrite <- El, Nat2Z.id.
+    destruct (hash_with_salt pwd salt (length stored) ops mem alg) as [c| |]; cbn [obind];
+      [|split; [discriminate|intros [_ H]; discriminate]|split; [discriminate|intros [_ H]; discriminate]].
+    destruct (bytes_eqb stored c) eqn:E.
+    + apply bytes_eqb_eq in E. subst c. split; [intros _; split; reflexivity|reflexivity].
+    + split; [discriminate|]. intros [_ H]. injection H as ->. rewrite (proj2 (bytes_eqb_eq _ _) eq_refl) in E. discriminate.
+  - apply Z.eqb_neq in El. split; [discriminate|]. intros [H _]. contradiction.
 Qed.
+
+Theorem verify_length_mismatch stored salt hl ops mem alg pwd :
+  Z.of_nat (length stored) <> hl -> verify stored salt hl ops mem alg pwd = Err.
+Proof. intros H. unfold verify. apply Z.eqb_neq in H. rewrite H. reflexivity. Qed.
